@@ -2,7 +2,8 @@ package query
 
 //verif:property C19
 //verif:pkg lib/query
-//verif:harness VerifC19ColumnNames mode=bv tier=quick
+//verif:harness VerifC19ColumnNames mode=bv tier=quick split=4
+//verif:harness VerifC19CellTexts mode=bv tier=quick split=4
 
 import (
 	"github.com/mithrandie/csvq/lib/option"
@@ -16,7 +17,7 @@ func VerifC19ColumnNames() {
 	names := []string{"a", "a.b", "a.b.c", "b", "a..b", ".a", "a.", "", "x:y", "a\nb", "a`b", "a\\.b"}
 	n1 := names[verifChoice("name", len(names))]
 	n2 := names[verifChoice("name", len(names))]
-	formats := []option.Format{option.JSON, option.JSONL, option.LTSV, option.CSV, option.FIXED, option.GFM, option.BOX}
+	formats := []option.Format{option.JSON, option.JSONL, option.LTSV, option.CSV, option.FIXED, option.GFM, option.BOX, option.TEXT, option.ORG}
 	f := formats[verifChoice("format", len(formats))]
 	view := NewView()
 	view.Header = NewHeader("t", []string{n1, n2})
@@ -37,3 +38,31 @@ func VerifC19ColumnNames() {
 type verifSink struct{ n int }
 
 func (s *verifSink) Write(p []byte) (int, error) { s.n += len(p); return len(p), nil }
+
+// A text cell of 0..2 symbolic bytes (thorough 0..3) over line breaks, the table-drawing characters,
+// a blank and a letter, printed in every output format: text or an ordinary error.
+func VerifC19CellTexts() {
+	formats := []option.Format{option.JSON, option.JSONL, option.LTSV, option.CSV, option.FIXED, option.GFM, option.BOX, option.TEXT, option.ORG}
+	f := formats[verifChoice("format", len(formats))]
+	n := verifChoice("cell-len", verifBound(3, 4))
+	cell := make([]byte, n)
+	for i := range cell {
+		c := verifByte("cell")
+		verifAssume(verifOr(verifOr(c == '\r', c == '\n'), verifOr(verifOr(c == '|', c == '\t'), verifOr(c == 'a', c == ' '))))
+		cell[i] = c
+	}
+	view := NewView()
+	view.Header = NewHeader("t", []string{"a", "b"})
+	view.RecordSet = RecordSet{NewRecord([]value.Primary{value.NewInteger(1), value.NewString(string(cell))}), NewRecord([]value.Primary{value.NewNull(), value.NewString("z")})}
+	tx := verifNewTx()
+	opts := tx.Flags.ExportOptions.Copy()
+	opts.Format = f
+	var sink verifSink
+	_, err := EncodeView(verifCtx(), &sink, view, opts, tx.Palette)
+	if err != nil {
+		_, fatal := err.(*FatalError)
+		verifAssert("no internal failure", !fatal)
+	}
+	verifObserveBool("error", err != nil)
+	verifReach("end")
+}
